@@ -114,12 +114,17 @@ def step (s : State) (w : List String) : State × String :=
     | some bs, some e => ({ s with input := bs, eof := e, expect := none }, s!"R ok len={bs.length} end={e}")
     | _, _ => (s, "bad-op")
   | ["p", "render", style, decor, forest, h] =>
-    match parseHex h, parseForest forest, Render.Style.ofString style, decor.toNat? with
-    | some bs, some f, some st, some d =>
+    match parseForest forest, Render.Style.ofString style, decor.toNat? with
+    | some f, some st, some d =>
       let text := Render.render st (Render.decorOf d) f
-      if text == bs then ({ s with input := bs, eof := -2, expect := some f }, s!"R ok len={bs.length}")
-      else (s, s!"R render-differs {toHex text}")
-    | _, _, _, _ => (s, "bad-op")
+      let adm := if Render.admissible st f then "yes" else "no"
+      if h == "?" then (s, s!"R render {toHex text} admissible={adm}")
+      else match parseHex h with
+        | some bs =>
+          if text == bs then ({ s with input := bs, eof := -2, expect := some (Render.norm f) }, s!"R ok len={bs.length}")
+          else (s, s!"R render-differs {toHex text}")
+        | none => (s, "bad-op")
+    | _, _, _ => (s, "bad-op")
   | ["p", "root", f] =>
     match parseForest f with
     | some f => ({ s with root := f }, s!"R ok | C {fmtForest f}")
